@@ -114,7 +114,7 @@ pub fn dispatch(id: &str, tier: Tier, replay: Option<&str>) -> i32 {
         "C17" => c17::run(tier),
         "C20" => {
             let rep = Report::new("C20", tier);
-            rep.set_rule("every ordered table of <= 3 (thorough 4) entries over gaps 0..=8 x limits {.5,1,2}, every split into two add_constraints calls, every probe (gap 0..=9 x 8 distances): reference = first configured limit of the smallest configured gap >= d; monotone in distance. Trackers: every motion word of length 5 (6 thorough) over {still, +3.5px, +11px, +30px, missed frame} for one fast object and a bystander, Sort / VisualSort x IoU / Mahalanobis (default and wide Kalman weights) x 8 constraint tables (incl. entries configured for gaps beyond max_idle, which still apply to every smaller gap): slack tables => records identical to the unconstrained tracker; binding tables => no continuation whose centre distance in units of the summed radii exceeds the limit for its epoch gap (recomputed from the pre-call store), and the association is optimal among the admitted pairs; plus VisualSort / BatchVisualSort with features and limits >= 1: a look-alike that jumps 12..200 px (up to 9 x the summed radii) is never attached beyond the limit of its epoch gap. Distance unit: the library's normalised distance of every ordered pair of 48 (thorough 120) boxes of different shapes, sizes and orientations at 6 offsets against centre distance / (sum of the circumscribed radii), and validate() on it just below / above a limit.");
+            rep.set_rule("every ordered table of <= 3 (thorough 4) entries over gaps 0..=8 x limits {.5,1,2,inf}, every split into two add_constraints calls, every probe (gap 0..=9 x 8 distances): reference = first configured limit of the smallest configured gap >= d; monotone in distance. Trackers: every motion word of length 5 (6 thorough) over {still, +3.5px, +11px, +30px, missed frame} for one fast object and a bystander, Sort / VisualSort x IoU / Mahalanobis (default and wide Kalman weights) x 8 constraint tables (incl. entries configured for gaps beyond max_idle, which still apply to every smaller gap): slack tables => records identical to the unconstrained tracker; binding tables => no continuation whose centre distance in units of the summed radii exceeds the limit for its epoch gap (recomputed from the pre-call store), and the association is optimal among the admitted pairs; plus VisualSort / BatchVisualSort with features and limits >= 1: a look-alike that jumps 12..200 px (up to 9 x the summed radii) is never attached beyond the limit of its epoch gap. Distance unit: the library's normalised distance of every ordered pair of 48 (thorough 120) boxes of different shapes, sizes and orientations at 6 offsets against centre distance / (sum of the circumscribed radii), and validate() on it just below / above a limit.");
             c20::run_tables(&rep, tier);
             c20::run_distance_unit(&rep, tier);
             c20::run_trackers(&rep, tier);
